@@ -310,8 +310,10 @@ def check_history(case, log, res):
                     f"{[hex(m['id']) for m in culprit]}")
         if kind == "result" and val != resp:
             return ("unexplained:wrong-bytes",
-                    f"request {rid:#x}: got {val[:16].hex()} expected "
-                    f"{resp[:16].hex()}")
+                    f"request {rid:#x}: got "
+                    + (val[:16].hex() if isinstance(val, (bytes, bytearray))
+                       else repr(val)[:40])
+                    + f" expected {resp[:16].hex()!r}")
     return None
 
 
